@@ -16,7 +16,7 @@
 (***************************************************************************)
 EXTENDS WhisperOps, Json, SequencesExt
 
-CONSTANTS Layouts, Methods, Xffs, T0, Horizon, Vals, MaxPrep, Export, FullGrid,
+CONSTANTS Layouts, Methods, Xffs, T0, Horizon, Vals, MaxPrep, Export, FullGrid, InitMode,
           CQuirks          \* subset of {"D5"}: today's copy (differences computed once, before any write)
 
 Absent == [k |-> "absent"]
@@ -40,7 +40,22 @@ VARIABLE ccfg
 allvars == <<fs, now, nprep, op, ccfg>>
 CView == <<fs, now, nprep, ccfg>>
 
-Init == /\ ccfg \in Configs
+\* a directed starting tree (InitMode = "coarse-agree"): source and destination agree in the coarsest archive on a value
+\* that is NOT the aggregate of the finer ones, and differ in the finest archive - the situation in which a copy's own
+\* propagation rewrites slots that already matched
+SeedWrite(c, r, a, t, x) == UpdateOne(c, r, T0, a, [t |-> t, v |-> Num(x)]).st.ring
+CoarseAgreeInit ==
+  /\ ccfg \in Configs
+  /\ \E x \in Vals, t \in {T0, T0 - 1} :
+       LET c == ccfg
+           top == K(c)
+           s == SeedWrite(c, SeedWrite(c, EmptyRing(c.layout), 1, t, x), top, t, 3 * x)
+           d == SeedWrite(c, SeedWrite(c, EmptyRing(c.layout), 1, t, 2 * x), top, t, 3 * x)
+       IN fs = [n \in Names |-> CASE n = "s1" -> File(c, s) [] n = "s2" -> Absent [] n = "d" -> File(c, d)]
+  /\ now = T0 /\ nprep = 0 /\ op = [name |-> "init"]
+
+Init == IF InitMode = "coarse-agree" THEN CoarseAgreeInit ELSE
+        /\ ccfg \in Configs
         /\ \E c2 \in Configs, sk \in {"absent", "same", "other"}, dk \in {"absent", "same", "other"} :
              fs = [n \in Names |->
                      CASE n = "s1" -> File(ccfg, EmptyRing(ccfg.layout))
